@@ -320,6 +320,41 @@ def _work_a(task):
     return A.out()
 
 
+def _work_a3(task):
+    """Array bounds that contain a type name with a declarator of its own
+    (sizeof(int *), a cast, _Alignof(void (*)(int *)), an anonymous struct with
+    a declarator inside, a compound literal): every derivation sequence within
+    the bound that has at least one such array derivation."""
+    ctx, maxlen, first_i = task
+    param = ctx in dm.PARAM_CONTEXTS
+    typed = [("arr", k) for k in dm.ARR_TYPED]
+    alpha = dm.symbols(param) + typed
+    name = "x" if ctx in dm.NAMED_CONTEXTS else None
+    seqs, tr = _seqs_from(alpha[first_i], maxlen, alpha, param)
+    seqs = [q for q in seqs if any(sym in typed for sym in q)]
+    A = Acc()
+    A.states = len(seqs)
+    A.trans = tr
+    cache = {}
+    for seq in seqs:
+        for red in (False, True):
+            try:
+                toks, exp = dm.place_entity(ctx, name, seq, dm.S_INT, red)
+            except dm.Unrenderable:
+                A.skipped += 1
+                continue
+
+            def mk(r, seq=seq, red=red):
+                key = (tuple(dm.sym_class(x) for x in seq), red, r[0] == "rejected")
+                if key not in cache:
+                    cache[key] = _minimise_a(ctx, name, seq, 0, red, param)
+                return "a:" + cache[key]
+
+            A.case(dm.text(toks), exp, mk, {"family": "a3", "ctx": ctx, "seq": dm.to_jsonable(seq),
+                                            "redundant": red})
+    return A.out()
+
+
 def array_spellings():
     """Every `[...]` content 6.7.5.2 allows with <= 2 distinct qualifiers:
     (dim_quals in source order, dim)."""
@@ -1198,6 +1233,68 @@ def _work_g(task):
                                "model bug: the two spellings have different expectations")
                     A.case(dm.text(t2), e2, lambda r: f"g:atomic-spec-derived-multi:qualifier-spelling:{r[0]}",
                            {"family": "g", "ctx": ctx})
+    elif what == "derived-multi-qual":
+        # plain qualifiers outside (before / after) the specifier and inside
+        # its type name, 2-3 declarators:
+        #   Qb _Atomic(Qi B * ...) Qa D1, D2[, D3]  ==  Qi B  D1 ++ (* _Atomic Qb Qa ...), ...
+        # (qualifier order inside one list is not compared)
+        level = maxlen
+        inner_seqs, inner_bases, _ = _derived_multi_plan(1)
+        s1 = dm.sequences(1)
+        small = [(), (Ptr(),), (Arr("N"),), (Fn("void"),)]
+        if level == 1:
+            inner_seqs, inner_bases = inner_seqs[:3], inner_bases[:1]
+            pairs = sorted(set([(a, b) for a in s1 for b in small] + [(a, b) for a in small for b in s1]), key=repr)
+        else:
+            pairs = [(a, b) for a in s1 for b in s1]
+        combos = pairs + list(itertools.product(small[:3] if level == 1 else small, repeat=3))
+        if shard:
+            combos = combos[shard[0]::shard[1]]
+        c_, v_ = ("qual", "const"), ("qual", "volatile")
+        outers = [((), ()), ((c_,), ()), ((), (c_,)), ((v_,), ()), ((c_, v_), ()), ((c_,), (v_,))]
+        inners = [(), (c_,), (v_,), (c_, v_)]
+        if level == 1:
+            outers = [o for o in outers if o != ((v_,), ())]
+            inners = [i_ for i_ in inners if i_ != (v_,)]
+        names = ("p", "q", "r")
+        smallset = set(small)
+        for combo in combos:
+            A.states += 1
+            A.trans += sum(len(x) for x in combo) + 2
+            for iseq in inner_seqs:
+                for ib in inner_bases:
+                    for (qb, qa), qi in itertools.product(outers, inners):
+                        if not (qb or qa or qi):
+                            continue
+                        try:
+                            spec1 = tuple(qb) + _atomic_spec(tuple(qi) + tuple(ib), iseq) + tuple(qa)
+                            d1 = Decln(spec1, tuple(Dtor(names[k], sq, None, None) for k, sq in enumerate(combo)))
+                            t1, e1 = dm.place(ctx, d1)
+                        except dm.Unrenderable:
+                            A.skipped += 1
+                            continue
+                        mk = lambda r: ("g:atomic-spec:TypeDecl.type:Typename-not-merged" if r[2]  # noqa: E731
+                                        else f"g:atomic-spec-derived-multi+qualifier:{r[0]}")
+                        A.case(dm.text(t1), e1, mk, {"family": "g", "ctx": ctx}, _sort_quals)
+                        if not all(sq in smallset for sq in combo) or (level == 1 and len(combo) == 3):
+                            continue
+                        # the spelling without the specifier (_Atomic first, so
+                        # that no `_Atomic (` can arise)
+                        oq = ("_Atomic",) + tuple(q[1] for q in tuple(qb) + tuple(qa))
+                        try:
+                            d2 = Decln(tuple(qi) + tuple(ib),
+                                       tuple(Dtor(names[k], sq + (("ptr", oq),) + iseq[1:], None, None)
+                                             for k, sq in enumerate(combo)))
+                            t2, e2 = dm.place(ctx, d2)
+                        except dm.Unrenderable:
+                            A.skipped += 1
+                            continue
+                        if _sort_quals(e1) != _sort_quals(e2):
+                            A.fail("g:model-inconsistent", {"text": dm.text(t1), "text2": dm.text(t2)},
+                                   "model bug: the two spellings have different expectations")
+                        A.case(dm.text(t2), e2,
+                               lambda r: f"g:atomic-spec-derived-multi+qualifier:qualifier-spelling:{r[0]}",
+                               {"family": "g", "ctx": ctx}, _sort_quals)
     elif what == "multi":
         # _Atomic(int) x, *y;
         for s1 in seqs:
@@ -1487,6 +1584,7 @@ def run(tier):
     T = Total()
     B = dict(
         a_len=3 if quick else 4,
+        a_typed_bound_len=2 if quick else 3,
         b_len=1 if quick else 2,
         b_triple_len=1,
         b_typedef_redefinition="every non-empty subset of positions of 2- and 3-declarator typedef declarations "
@@ -1527,6 +1625,12 @@ def run(tier):
         per_ctx[t[0]] = per_ctx.get(t[0], 0) + res[0]
     R.set("a_cases_per_context", per_ctx)
     for res in core.pmap(_work_a2, [("param", B["a_len"] - 2), ("param_abs", B["a_len"] - 2)], chunksize=1):
+        T.merge("a", res)
+    tasks = []
+    for ctx in dm.CONTEXTS:
+        n_alpha = len(dm.symbols(ctx in dm.PARAM_CONTEXTS)) + len(dm.ARR_TYPED)
+        tasks += [(ctx, B["a_typed_bound_len"], fi) for fi in range(n_alpha)]
+    for res in core.pmap(_work_a3, tasks, chunksize=1):
         T.merge("a", res)
     lap("a")
 
@@ -1615,6 +1719,7 @@ def run(tier):
         tasks.append(("multi", ctx, B["g_multi_len"]))
         for sh in range(8):
             tasks.append(("derived-multi", ctx, (1 if quick else 2, sh, 8)))
+            tasks.append(("derived-multi-qual", ctx, (1 if quick else 2, sh, 8)))
             if not quick:
                 tasks.append(("derived-multi", ctx, (3, sh, 8)))
     for res in core.pmap(_work_g, tasks, chunksize=1):
@@ -1679,8 +1784,9 @@ def run(tier):
         "no restrict pointer to function; [static]/[qual] only in the outermost array derivation of a parameter, [*] only in parameters)",
         "`* _Atomic (D)` has no C11 spelling (6.7.2.4p4) and is skipped (counted in unrenderable_skipped)",
         "qualifier order inside one quals list is compared exactly except where an atomic specifier is mixed with other qualifiers",
-        "_Atomic(type-name) with other qualifiers inside or outside a *derived* type-name is not generated "
-        "(pycparser's Decl.quals convention does not say where such a qualifier goes)",
+        "qualifiers written next to an _Atomic(derived type-name) specifier qualify the atomic pointer itself "
+        "(`const _Atomic(int *) p` is `int * const _Atomic p`), qualifiers inside the type name stay on their level; "
+        "the order inside one quals list is not compared there",
     ]
     return R.finish(
         [x for fam in sorted(T.fam) for x in
